@@ -10,16 +10,31 @@ def _shards(lines, shards):
     return [lines[i:i + size] for i in range(0, n, size)]
 
 
+def _deal(lines, shards):
+    """round-robin shards: heavy cases that stand next to each other in the case list end up in different shards"""
+    k = max(1, min(shards, len(lines)))
+    return [lines[j::k] for j in range(k)] if lines else []
+
+
+def _undeal(parts_out, n):
+    """inverse of _deal for the per-shard result lists"""
+    k = len(parts_out)
+    out = [None] * n
+    for j, res in enumerate(parts_out):
+        out[j::k] = res
+    return out
+
+
 def run_impl(harness, cases, work, shards=NPROC, timeout=1800):
     """cases: list of case lines -> list of result lines (same length)"""
-    parts = _shards(cases, shards)
+    parts = _deal(cases, shards)
     procs = []
     for j, part in enumerate(parts):
         cf = os.path.join(work, "cases.%d.txt" % j); of = os.path.join(work, "impl.%d.txt" % j)
         open(cf, "w").write("\n".join(part) + "\n")
         sc = os.path.join(work, "scratch.%d" % j)
         procs.append((subprocess.Popen([harness, cf, of, sc], env=ENV, stdout=subprocess.PIPE, stderr=subprocess.STDOUT), of, len(part), sc))
-    out = []
+    outs = []
     for p, of, n, sc in procs:
         try:
             p.communicate(timeout=timeout)
@@ -28,15 +43,15 @@ def run_impl(harness, cases, work, shards=NPROC, timeout=1800):
         res = open(of).read().splitlines() if os.path.exists(of) else []
         if len(res) < n:   # the harness died (abort / UB check / timeout): the first missing line is the culprit
             res = res + ["CRASH harness exited with status %s" % p.returncode] + ["NOT-RUN"] * (n - len(res) - 1)
-        out.extend(res[:n])
+        outs.append(res[:n])
         shutil.rmtree(sc, ignore_errors=True)
-    return out
+    return _undeal(outs, len(cases))
 
 
 def run_model(cases, shards=NPROC, timeout=3000):
     """-> (model lines, spec lines)"""
     drv = os.path.join(CACHE, "ocaml", "driver")
-    parts = _shards(cases, shards)
+    parts = _deal(cases, shards)
     outs = [None] * len(parts)
     def work(j):
         try:
@@ -47,24 +62,24 @@ def run_model(cases, shards=NPROC, timeout=3000):
             outs[j] = ""
     th = [threading.Thread(target=work, args=(j,)) for j in range(len(parts))]
     [t.start() for t in th]; [t.join() for t in th]
-    m, s = [], []
+    ms, ss_ = [], []
     for j, o in enumerate(outs):
         mm = [l[2:] for l in o.splitlines() if l.startswith("M ") or l == "M"]
         ss = [l[2:] for l in o.splitlines() if l.startswith("S ") or l == "S"]
         n = len(parts[j])
         mm += ["MODEL-DIED"] * (n - len(mm)); ss += ["MODEL-DIED"] * (n - len(ss))
-        m.extend(mm[:n]); s.extend(ss[:n])
-    return m, s
+        ms.append(mm[:n]); ss_.append(ss[:n])
+    return _undeal(ms, len(cases)), _undeal(ss_, len(cases))
 
 
-def coq_sample(cases, model_out, spec_out, notes, limit=160, max_len=4000, shards=8, keep=None):
+def coq_sample(cases, model_out, spec_out, notes, limit=160, max_len=4000, shards=NPROC, keep=None):
     """re-evaluate a deterministic sample of the cases inside Coq (vm_compute of the very function that was
     extracted) and compare with the output of the OCaml driver: extraction is cross-checked, not only trusted"""
     idx = [i for i in range(len(cases)) if len(cases[i]) <= max_len and (keep is None or keep(cases[i]))]
     if not idx: return 0, 0
     step = max(1, len(idx) // limit)
     picked = idx[::step][:limit]
-    groups = _shards(picked, shards)
+    groups = _deal(picked, shards)
     d = os.path.join(CACHE, "work", "coqsample.%d" % os.getpid()); os.makedirs(d, exist_ok=True)
     procs = []
     for g, grp in enumerate(groups):
